@@ -3708,8 +3708,9 @@ func (p *Posix) HeadObject(ctx context.Context, input *s3.HeadObjectInput) (*s3.
 			return nil, fmt.Errorf("get obj versionId: %w", err)
 		}
 		if errors.Is(err, meta.ErrNoSuchKey) {
-			bucket = filepath.Join(p.versioningDir, bucket)
-			object = filepath.Join(genObjVersionKey(object), versionId)
+			// an object without the version id attribute is the null
+			// version (same rule as in GetObject)
+			vId = []byte(nullVersionId)
 		}
 
 		if string(vId) != versionId {
